@@ -211,6 +211,9 @@ MALFORMED_POS = [[S(x)] for x in ("rad", "reddish", "on_", "on_rad", "", "fg", "
 MALFORMED_KW = [[["fg", v]] for v in (S("rad"), S("reddish"), S(""), V(29), V(38), V(39), V(40), V(49), V(90), V(97), V(0), V(-31), V(131), V(99),
                                       V(True), V(False), V(31.0), V(3.5), O("list"), O("tuple"), O("bytes"), O("dict"),
                                       O("object"), O("complex"), O("nested"))] + \
+               [[["fg", S(x)]] for x in ("bold", "dark", "italic", "underline", "blink", "invert", "on_red", "on_blue", "on_gray",
+                                         "plain", "fg", "style")] + \
+               [[["bg", S(x)]] for x in ("bold", "underline", "invert", "on_on_red", "plain", "bg")] + \
                [[["bg", v]] for v in (S("rad"), V(31), V(30), V(48), V(39), V(49), V(100), V(4), V(True), V(41.0),
                                       O("dict"), O("list"), O("object"))] + \
                [[[s, v]] for s, v in (("bold", V(1)), ("bold", V(0)), ("bold", S("maybe")), ("bold", S("bold")),
@@ -233,7 +236,7 @@ MALFORMED_FUNC = [("red", [S("blue")], []), ("red", [], [["fg", S("blue")]]), ("
                   ("underline", [], [["underline", V(0)]]), ("on_dark", [], [["bg", S("red")]])]
 # rejected today, but not malformed under every reading: (pos, kw) - representation-level tie only, no oracle verdict
 REJECTED_SPELLINGS = [(p, []) for p in ([S("onred")], [S("on red")], [S(" red")], [S("red ")], [S("31")], [S("bold ")])] + \
-    [([], [[k, v]]) for k, v in (("fg", S("RED")), ("fg", S("Red")), ("fg", S("on_red")), ("fg", S("31")), ("fg", S(" red")),
+    [([], [[k, v]]) for k, v in (("fg", S("RED")), ("fg", S("Red")), ("fg", S("31")), ("fg", S(" red")),
                                  ("fg", V(None)), ("bg", S("on_red")), ("bg", S("RED")), ("bg", S("ON_BLUE")), ("bg", V(None)),
                                  ("bg", S("44")), ("BOLD", V(True)), ("Fg", S("red")), ("fg ", V(31)), ("on_red", V(True)),
                                  ("red", V(True)), ("style", S("RED ")), ("style", S(" bold")),
